@@ -148,7 +148,8 @@ impl SRule
             let mut root = Node::default();
             for p in paths.iter()
             {
-                let parts : Vec<&str> = p.split('/').collect();
+                // a path that leaves the workspace ("/x", "../x") is written out as it is
+                let parts : Vec<&str> = if p.starts_with('/') || p.starts_with("..") { vec![p.as_str()] } else { p.split('/').collect() };
                 insert(&mut root, &parts);
             }
             emit(&root, 0, s);
@@ -265,6 +266,10 @@ pub enum Op
     /* rewrite the rules files with the same rules in the other documented notation
        (flat paths / tab-indented directory bundles) */
     Restyle{ bundled : bool },
+    /* the user removes every empty workspace directory (after a clean emptied them) ... */
+    PruneDirs,
+    /* ... and makes the case's directories again */
+    MakeDirs,
 }
 
 impl Op
@@ -296,6 +301,8 @@ impl Op
             Op::Move{..} => "move",
             Op::DamageState{..} => "damage-state-file",
             Op::Restyle{..} => "restyle-rules-file",
+            Op::PruneDirs => "remove-empty-directories",
+            Op::MakeDirs => "make-directories",
         }
     }
 
@@ -317,6 +324,7 @@ impl Op
             Op::DeleteCacheContent{ content } => o.set("content", J::Str(show_bytes(content))),
             Op::DeleteRulerDir{ part } => o.set("part", J::Str(format!("{:?}", part))),
             Op::Move{ from, to } => o.set("from", J::s(from)).set("to", J::s(to)),
+            Op::PruneDirs | Op::MakeDirs => o,
             Op::Restyle{ bundled } => o.set("notation", J::s(if *bundled { "directory bundles" } else { "flat paths" })),
             Op::DamageState{ table, pick, keep } => o.set("file", J::Str(if *table { "current_file_states".to_string() } else { format!("history file #{}", pick) }))
                 .set("how", J::Str(match keep { Some(n) => format!("truncated to {} bytes", n), None => "replaced by garbage".to_string() })),
